@@ -23,7 +23,7 @@ RULE = (
     "parameters) x per configuration: every unit impulse (time x label), every ordered pair superposition "
     "e_i + 2 e_j over a generating subset, scaling by -3, every truncation point with two different continuations, "
     "every label computed alone, calendar shifts -1990 / +7 / +100000, impulse response vs closed-form survival "
-    "column x interval length. Non-trivial = relation evaluated on a well-conditioned configuration. Distinct by "
+    "column x interval length; superposition and scaling also with ONE lifetime model object shared by all stocks of the relation; per-cohort parameters alternating between every other (lifetime, grid) and a non-monotone pattern whose first and last cohort coincide; stock-driven models with one degenerate label (zero survival of the own interval) next to healthy ones, every healthy label vs computed alone. Non-trivial = relation evaluated on a well-conditioned configuration. Distinct by "
     "construction."
 )
 ASSUMPTIONS = [
@@ -40,6 +40,9 @@ TOL = 1e-10
 NAMES = ("stock", "inflow", "outflow", "sbc", "obc")
 EXTRAS = ([], [("p", 2)], [("p", 2), ("q", 2)])
 SHAPES = {0: ("t", "scalar"), 1: ("pt", "p"), 2: ("tqp", "qt")}  # 2: a full-dimensional parameter stored in permuted order
+# alternative parametrisations ("T": every other cohort short-lived, so with an odd number of steps the first and
+# the last cohort have the same parameters while the ones between differ); used for every other (lifetime, grid)
+SHAPES_ALT = {0: ("T", "scalar"), 1: ("pT", "scalar"), 2: ("tqp", "qt")}
 
 
 def bounds(tier):
@@ -47,7 +50,70 @@ def bounds(tier):
 
 
 def units(tier, seed):
-    return [dict(u, seed=seed) for u in c03.units(tier, seed)]
+    out = [dict(u, seed=seed) for u in c03.units(tier, seed)]
+    gs = dsm.QUICK_GRIDS if tier == "quick" else dsm.grids()
+    for k in range(0, len(gs), 8):
+        out.append(dict(degenerate=True, grids=[list(g) for g in gs[k : k + 8]], tier=tier, seed=seed))
+    return out
+
+
+def run_degenerate(grid, at, nlab, deg):
+    """stock-driven model (manual solver) over labels of which ONE is degenerate - nothing of a cohort of that
+    label survives its own interval, so no inflow can be inferred for it (the implementation returns inf / nan
+    there) - the other labels must still evolve exactly as if each were computed alone"""
+    import numpy as np
+
+    import flodym
+
+    grid = tuple(grid)
+    n = len(grid)
+    case = dict(degenerate=True, grid=list(grid), at=at, nlab=nlab, deg=deg)
+    dt = dsm.dts(grid)
+    means = [(0.3 * min(dt)) if j == deg else ((1.7 + 0.9 * j) * max(dt) + 0.0137) for j in range(nlab)]
+    extra = [("p", nlab)]
+    stock = {(t, (j,)): float((t + 1) * (2 + j) + (t % 2)) for t in range(n) for j in range(nlab)}
+
+    def build(ex, mean_value, drv):
+        dims = dsm_impl.make_dims(grid, ex)
+        if ex:
+            mean = flodym.Parameter(dims=dims[("p",)], values=np.array(mean_value))
+        else:
+            mean = mean_value
+        lm = flodym.FixedLifetime(dims=dims, time_letter="t", mean=mean, inflow_at=at)
+        sa = flodym.StockArray(dims=dims)
+        dsm_impl.fill(sa, drv, ex)
+        s = flodym.StockDrivenDSM(dims=dims, lifetime_model=lm, stock=sa, solver="manual")
+        with np.errstate(all="ignore"):
+            s.compute()
+        return dict(
+            stock=dsm_impl.series_from_nd(s.stock.values, ex),
+            inflow=dsm_impl.series_from_nd(s.inflow.values, ex),
+            outflow=dsm_impl.series_from_nd(s.outflow.values, ex),
+            sbc=dsm_impl.table_from_nd(s.get_stock_by_cohort(), ex),
+            obc=dsm_impl.table_from_nd(s.get_outflow_by_cohort(), ex),
+        )
+
+    def go():
+        full = build(extra, means, stock)
+        for j in range(nlab):
+            if j == deg:
+                continue
+            alone = build([], means[j], {(t, ()): stock[(t, (j,))] for t in range(n)})
+            scale = max(dsm_impl.scale_of(alone, grid), 1.0)
+            for nm in NAMES:
+                for key, v in alone[nm].items():
+                    w = full[nm][key[:-1] + ((j,),)]
+                    if not abs(v - w) <= TOL * scale:
+                        return f"label p{j+1} (mean {means[j]}) computed alone gives {nm}{key} = {v!r}, next to the degenerate label p{deg+1} (mean {means[deg]}: nothing survives its own interval) it gives {w!r}"
+        return None
+
+    st, d = attempt(go)
+    tags = dict(cls="stock-manual", rel="degenerate-neighbour")
+    if st == "raised":
+        return "fail", dict(case=case, tags=tags, what=f"stock-driven DSM (manual) grid {list(grid)} inflow_at {at}, {nlab} labels of which p{deg+1} is degenerate: raised {d}")
+    if d:
+        return "fail", dict(case=case, tags=tags, what=f"stock-driven DSM (manual) grid {list(grid)} inflow_at {at}: {d}")
+    return "relation-holds (degenerate neighbour label)", None
 
 
 def lincomb(a, ca, b=None, cb=0.0):
@@ -70,7 +136,7 @@ def run_case(kind, grid, li, quad, ei, rel):
     grid = tuple(grid)
     n = len(grid)
     labs = dsm_impl.labels(extra)
-    shapes = c03.shapes_dict(lt, SHAPES[ei])
+    shapes = c03.shapes_dict(lt, (SHAPES if (li + n) % 2 else SHAPES_ALT)[ei])
     case = dict(kind=kind, grid=list(grid), lt=li, quad=list(quad), ei=ei, rel=rel)
     tags0 = dict(cls=kind, grid=dsm.grid_kind(grid), dist=lt[0], rel=rel[0])
 
@@ -81,14 +147,22 @@ def run_case(kind, grid, li, quad, ei, rel):
     if kind.startswith("stock") and any(sf_m[(c, c, lab)] is None or sf_m[(c, c, lab)] < 0.05 for c in range(n) for lab in labs):
         return "skipped-ill-conditioned", None
 
+    shared = {}
+
     def run(d, g=grid, ex=extra, sh=shapes, ltx=lt):
+        if rel[0].endswith("-shared"):
+            # all stocks of this relation hold ONE lifetime model object (as in a scenario loop that builds the
+            # lifetime model once and hands it to every stock)
+            out = dsm_impl.run_stock(kind, g, ltx, quad, ex, sh, d, lm=shared.get("lm"))
+            shared["lm"] = out["lm"]
+            return out
         return dsm_impl.run_stock(kind, g, ltx, quad, ex, sh, d)
 
     def imp(t, li_):
         return dsm_impl.driver_series(f"imp:{t}:{li_}", n, extra)
 
     def go():
-        r = rel[0]
+        r = rel[0].replace("-shared", "")
         if r == "impulse":
             t0, l0 = rel[1], rel[2]
             res = run(imp(t0, l0))
@@ -148,8 +222,8 @@ def run_case(kind, grid, li, quad, ei, rel):
             d = dsm_impl.driver_series("pos" if kind == "inflow" else "hump", n, extra)
             full = run(d)
             lab = labs[l0]
-            base1 = {nm: dsm.param_value(lt[1][nm], nm, 0, lab, [p for p in dsm_impl.varies_of(shapes.get(nm, "scalar"), extra) if p != -1]) for nm in lt[1]}
-            sh1 = {nm: ("t" if "t" in shapes.get(nm, "scalar") else "scalar") for nm in lt[1]}
+            base1 = {nm: dsm.param_value(lt[1][nm], nm, 0, lab, [p for p in dsm_impl.varies_of(shapes.get(nm, "scalar"), extra) if p not in (-1, -2)]) for nm in lt[1]}
+            sh1 = {nm: ("t" if "t" in shapes.get(nm, "scalar") else ("T" if "T" in shapes.get(nm, "scalar") else "scalar")) for nm in lt[1]}
             d1 = {(t, ()): d[(t, lab)] for t in range(n)}
             alone = dsm_impl.run_stock(kind, grid, (lt[0], base1), quad, [], sh1, d1)
             scale = max(dsm_impl.scale_of(full, grid), 1.0)
@@ -208,6 +282,9 @@ def relations(n, nlab, tier):
         if tier == "thorough" or (i + 2 * j) % 3 == 0:
             rels.append(("superpose", list(gen[i]), list(gen[j])))
     rels.append(("int-driver",))
+    rels.append(("superpose-shared", list(basis[0]), list(basis[-1])))
+    rels.append(("superpose-shared", list(basis[-1]), list(basis[len(basis) // 2])))
+    rels.append(("scale-shared", -3.0))
     for t in range(n):
         rels.append(("inverse-impulse", t, (t * 3) % nlab))
     rels.append(("scale", -3.0))
@@ -225,6 +302,19 @@ def relations(n, nlab, tier):
 
 def run_unit(u):
     tier = u["tier"]
+    if u.get("degenerate"):
+        res = dict(evals=0, nontrivial=0, outcomes={}, fails=[], samples=[])
+        for grid in u["grids"]:
+            for at in ("middle", "start"):
+                for nlab in (2, 3):
+                    for deg in range(nlab):
+                        oc, f = run_degenerate(grid, at, nlab, deg)
+                        res["evals"] += 1
+                        res["nontrivial"] += 1
+                        res["outcomes"][oc] = res["outcomes"].get(oc, 0) + 1
+                        if f:
+                            res["fails"].append(f)
+        return res
     grid, li = u["grid"], u["lt"]
     n = len(grid)
     res = dict(evals=0, nontrivial=0, outcomes={}, fails=[], samples=[])
@@ -252,5 +342,8 @@ def run_unit(u):
 
 
 def replay(case):
+    if case.get("degenerate"):
+        oc, f = run_degenerate(case["grid"], case["at"], case["nlab"], case["deg"])
+        return [f] if f else []
     oc, f = run_case(case["kind"], case["grid"], case["lt"], tuple(case["quad"]), case["ei"], case["rel"])
     return [f] if f else []
